@@ -76,6 +76,7 @@ func cmdRun(args []string) {
 	runs := fs.Int("runs", 1, "number of runs")
 	from := fs.Int("from", 0, "first run index")
 	verbose := fs.Bool("v", false, "print the event log of each run")
+	tier := fs.String("tier", "quick", "tier whose run indices are meant")
 	fs.Parse(args)
 
 	faults := map[string]int{}
@@ -83,7 +84,7 @@ func cmdRun(args []string) {
 	sigs := map[string]bool{}
 	nviol, calls, setupErr := 0, 0, 0
 	for i := *from; i < *from+*runs; i++ {
-		s := runSeed(*seed, *prop, "quick", i)
+		s := runSeed(*seed, *prop, *tier, i)
 		r := world.RunOne(*prop, s, world.VariantFor(i), nil)
 		if r.SetupError != "" {
 			setupErr++
